@@ -2,6 +2,8 @@
 //! `procsim <ID> [quick|thorough]`, `procsim <ID> --replay <file>`.
 
 mod c04;
+mod c05;
+mod c27;
 mod hist;
 mod report;
 mod world;
@@ -14,6 +16,10 @@ fn main() {
         ("validate-shapes", _) => c04::validate_shapes(),
         ("C04", "--replay") => c04::replay(&args[3]),
         ("C04", tier) => c04::check(tier),
+        ("C27", "--replay") => c27::replay(&args[3]),
+        ("C27", tier) => c27::check(tier),
+        ("C05", "--replay") => c05::replay(&args[3]),
+        ("C05", tier) => c05::check(tier),
         _ => {
             eprintln!("usage: procsim <C04|C05|C24|C27|C30|C32|C34> [quick|thorough|--replay <file>]");
             2
